@@ -158,6 +158,12 @@ def gen_plan(tape, cfg):
             srt = tape.choice([s_ for s_ in symbols.values() if not bp.is_usort(s_) and not bp.is_fun(s_)
                                and not bp.is_array(s_)] or [bp.BOOL], "gv.sort")
             o["t"] = bp.gen_term(tape, srt, tape.rint(0, 2, "gv.depth"), ctx)
+            if ctx.quant and ctx.usort_list() and tape.chance(1, 3, "gv.quantified"):
+                # the value of a closed quantified term over a declared sort (the reply echoes the term)
+                s_ = tape.choice(ctx.usort_list(), "gv.q.sort")
+                na, nb = "qa_%s" % s_[1], "q b_%s" % s_[1]
+                o["t"] = [tape.choice(bp.QUANT, "gv.q"), [[na, s_], [nb, s_]],
+                          tape.choice([["=", ["sym", na, s_], ["sym", nb, s_]], ["not", ["=", ["sym", na, s_], ["sym", nb, s_]]]], "gv.q.body")]
             o["api"] = tape.choice(["get_value", "get_value", "get_py_value", "get_values"], "gv.api")
         elif k == "shortcut":
             o["kind"] = tape.choice(["is_sat", "is_valid", "is_unsat", "get_model"]
